@@ -9,6 +9,8 @@
 (*   pair   : A has TWO fields (types from PairTypes) x every key style    *)
 (*            (keyword-like, camelCase, colliding after case-fold,         *)
 (*            swapped, partially mapped, identity Meta) x required pattern *)
+(*   hier   : class HIERARCHIES (extends chains of 2-3 classes, overrides,  *)
+(*            inherited / extended / own Meta, mixin)                       *)
 (*   cycle  : the class graph is CYCLIC: two or three mutually recursive   *)
 (*            classes linked through list / dict / direct / Optional       *)
 (*            fields, renamed keys on every class, every class as entry    *)
@@ -25,7 +27,13 @@ CONSTANTS LeafSet,     \* leaf types in the family
           Cycle3Kinds, \* link kinds of the 3-class cycles
           CycleStyles, \* key styles of the classes on a cycle
           CycleMixed,  \* TRUE: only 2-cycles whose classes use two different key styles (quick-tier stratum)
-          Families     \* subset of {"single", "pair", "cycle"}
+          HierStyles,  \* key styles of the base class of a hierarchy
+          HierMetas,   \* Meta modes of the subclasses: subset of {"inherit", "extend", "own"}
+          HierOverrides, \* subset of {"none", "type", "default"}
+          HierDepths,  \* subset of {2, 3}: length of the inheritance chain
+          HierMixins,  \* subset of BOOLEAN: a field-less mixin among the bases
+          HierTops,    \* subset of {"sub", "base_then_sub", "sub_then_base"}
+          Families     \* subset of {"single", "pair", "cycle", "hier"}
 VARIABLES scen, done
 gvars == <<scen, done, hooks, hist, last>>
 
@@ -84,28 +92,59 @@ Cycle3 ==
              top |-> ClsT(t), fam |-> "cycle"] : t \in {"P", "Q", "R"}} :
          k1 \in Cycle3Kinds, k2 \in Cycle3Kinds, k3 \in Cycle3Kinds}
 
+\* hier: class HIERARCHIES.  H (base, style sb: a required str and an optional int) <- Hs (adds an optional date;
+\* may override H's int field with another type, or H's required str with an optional one; Meta inherited /
+\* extended / own; optionally a field-less mixin) <- Hss (adds an optional bool).  Top = the most derived class,
+\* or a wrapper W holding a base instance and a derived instance in either field order (the order in which the
+\* two classes are first converted).
+OwnStyle(mode) == IF mode = "inherit" THEN "plain" ELSE "camel"
+HDef(sb) == [meta |-> StyleMeta[sb],
+             fields |-> <<Fld(PyName("A", sb, 1), WireName("A", sb, 1), LeafT("str"), TRUE),
+                          Fld(PyName("A", sb, 2), WireName("A", sb, 2), LeafT("int"), FALSE)>>]
+HsDef(sb, mode, ov, mx) ==
+  [meta |-> mode, extends |-> "H", mixin |-> mx,
+   fields |-> <<Fld(PyName("D", OwnStyle(mode), 1), WireName("D", OwnStyle(mode), 1), LeafT("date"), FALSE)>>
+              \o (IF ov = "type" THEN <<Fld(PyName("A", sb, 2), WireName("A", sb, 2), LeafT("str"), FALSE)>>
+                  ELSE IF ov = "default" THEN <<Fld(PyName("A", sb, 1), WireName("A", sb, 1), LeafT("str"), FALSE)>>
+                  ELSE <<>>)]
+HssDef(mode) ==
+  [meta |-> mode, extends |-> "Hs", mixin |-> FALSE,
+   fields |-> <<Fld(PyName("E", OwnStyle(mode), 1), WireName("E", OwnStyle(mode), 1), LeafT("bool"), FALSE)>>]
+WDef(first, second) ==
+  [meta |-> "none", fields |-> <<Fld("first", "first", ClsT(first), TRUE), Fld("second", "second", ClsT(second), TRUE)>>]
+Hier ==
+  {[classes |-> [n \in {"H", "Hs"} \cup (IF d = 3 THEN {"Hss"} ELSE {}) \cup (IF tp = "sub" THEN {} ELSE {"W"}) |->
+                   IF n = "H" THEN HDef(sb) ELSE IF n = "Hs" THEN HsDef(sb, mode, ov, mx) ELSE IF n = "Hss" THEN HssDef(mode)
+                   ELSE (LET leaf == IF d = 3 THEN "Hss" ELSE "Hs"
+                         IN IF tp = "base_then_sub" THEN WDef("H", leaf) ELSE WDef(leaf, "H"))],
+     top |-> ClsT(IF tp = "sub" THEN (IF d = 3 THEN "Hss" ELSE "Hs") ELSE "W"), fam |-> "hier"] :
+     sb \in HierStyles, mode \in HierMetas, ov \in HierOverrides, mx \in HierMixins, d \in HierDepths, tp \in HierTops}
+
 Scenarios == (IF "single" \in Families THEN Single ELSE {}) \cup (IF "pair" \in Families THEN Pair ELSE {})
              \cup (IF "cycle" \in Families THEN Cycle2 \cup Cycle3 ELSE {})
+             \cup (IF "hier" \in Families THEN Hier ELSE {})
 
-cl == scen.classes
+cl == scen.classes        \* as declared (own fields, extends)
+fcl == Flat(scen.classes) \* hierarchies resolved: what the reference semantics works on
 Top == scen.top
 
 \* the design check: the reference codec obeys the laws on every generated type tree, every instance conforms,
 \* every mutant is rejected at its own position, and the key maps are bijections
 Laws ==
-  /\ \A n \in DOMAIN cl : KeysBijective(cl[n]) /\ MetaConsistent(cl[n])
-  /\ \A j \in Instances(cl, Top) : Conforms(cl, j, Top)
-  /\ DecEnc(cl, Top)
-  /\ EncDec(cl, Top)
-  /\ MutantsRejected(cl, Top)
+  /\ \A n \in DOMAIN cl : KeysBijective(cl, n) /\ MetaConsistent(cl, n)
+  /\ LET f == fcl IN
+       /\ \A j \in Instances(f, Top) : Conforms(f, j, Top)
+       /\ DecEnc(f, Top)
+       /\ EncDec(f, Top)
+       /\ MutantsRejected(f, Top)
 
 Init == scen \in Scenarios /\ done = FALSE /\ RegInit
 Emit ==
   /\ ~done
   /\ done' = TRUE
   /\ UNCHANGED <<scen, hooks, hist, last>>
-  /\ PrintT("SCEN " \o ToJson([classes |-> cl, top |-> Top, fam |-> scen.fam, depth |-> TyDepth(cl, Top), cyclic |-> CyclicTable(cl),
-                               inst |-> SetToSeq({[j |-> j, v |-> Decode(cl, Top, j)] : j \in Instances(cl, Top)}),
-                               bad |-> SetToSeq(Mutants(cl, Top))]))
+  /\ PrintT("SCEN " \o ToJson([classes |-> WithBuild(cl), top |-> Top, fam |-> scen.fam, depth |-> TyDepth(fcl, Top), cyclic |-> CyclicTable(fcl),
+                               inst |-> SetToSeq({[j |-> j, v |-> Decode(fcl, Top, j)] : j \in Instances(fcl, Top)}),
+                               bad |-> SetToSeq(Mutants(fcl, Top))]))
 Spec == Init /\ [][Emit]_gvars
 =============================================================================
